@@ -155,8 +155,14 @@ def semantic_fallback(report, q):
     from .common import Report
     b = native("run_module", {"module": "pvc.bex_contract", "func": "chain_pairs", "args": {"qualname": q, "limit": 400, "seed": SEED}},
                timeout=1800)
-    pairs = [p for p in b["pairs"] if p["real"] != p["chain"]][:60]
-    out = {"compared": len(b["pairs"]), "violations": 0}
+    out = {"compared": len([p for p in b["pairs"] if "chain" in p]), "violations": 0}
+    for p in [p for p in b["pairs"] if "chain_error" in p][:3]:
+        call = q.rsplit(".", 2)[-2] + "(" + ", ".join(f"{k}={v}" for k, v in p["args"].items() if k != "self") + ")"
+        out["violations"] += 1
+        report.violation(f"{q}: the chain of operations named by the contract cannot be built: {call}",
+                         {"call": call, "emitted": p["real"], "chain_raises": p["chain_error"]},
+                         {"kind": "contract_call", "qualname": q, "args": p["args"]}, witness=call)
+    pairs = [p for p in b["pairs"] if "chain" in p and p["real"] != p["chain"]][:60]
     if not pairs:
         return out
     U = lang.universe_default()
